@@ -236,6 +236,228 @@ theorem analyze_holderOK (env : Env) (silent : Bool) (s : Stmt) (hp : env.prov.t
   | noop _ _ => simp [fragStmt] at hs
   | unsupported _ => simp [fragStmt] at hs
 
+/-! ### from the exact edge description and the tag facts (column list, and any other fragment that provides them) -/
+
+/-- `HolderOK` from `EdgesExact` + `TagFacts`: an edge leaving a column is a LINEAGE edge, hence one of the specified pairs -/
+theorem holderOK_of_exact (g : LGraph) (K : List (Node × Node)) (tabs : List DObj) (O0 : List (Node × Node)) (T : DS)
+    (hT : T.isDataset = true) (hE : EdgesExact g K tabs O0) (hF : TagFacts g tabs T)
+    (hO0 : ∀ p ∈ O0, p.1.isCol = false)
+    (hK : ∀ u v, (u, v) ∈ K → ColumnsExact.colParent v = some T ∧
+      ∀ d, ColumnsExact.colParent u = some d → d ∈ tabs.map (·.d)) :
+    HolderOK g := by
+  refine ⟨?_, ?_, ?_⟩
+  · simp only [stmtRename, List.filter_eq_nil_iff]
+    intro e he
+    have := hE.noRename e.1 e.2 (mem_edgesOrdered _ _ he)
+    simpa using this
+  · intro u v he d Tt hd
+    obtain ⟨hu, hv, hdd, hTT⟩ := hd
+    rw [colParent_eq'] at hu hv
+    have hucol : u.isCol = true := isCol_of_colParent u d hu
+    have hety : g.ety u v = some (g.etype u v) := by
+      simp only [Graph.ety, (hasEdge_iff g u v).mpr he, if_true]
+    have hk : (u, v) ∈ K := by
+      cases hty : g.etype u v with
+      | lineage => exact (hE.lineage u v).mp ⟨he, by rw [hety, hty]⟩
+      | rename => exact absurd (by rw [hety, hty]) (hE.noRename u v he)
+      | hasColumn =>
+        rcases (hE.hasColumn u v).mp ⟨he, by rw [hety, hty]⟩ with h0 | h0
+        · have := hO0 _ h0; simp only at this; rw [this] at hucol; cases hucol
+        · obtain ⟨p, _, h1 | h1⟩ := (mem_specOwners K (u, v)).mp h0
+          · obtain ⟨d', _, hx⟩ := h1
+            have : u = .ds d' := congrArg Prod.fst hx
+            rw [this] at hucol; cases hucol
+          · obtain ⟨d', _, hx⟩ := h1
+            have : u = .ds d' := congrArg Prod.fst hx
+            rw [this] at hucol; cases hucol
+      | hasAlias =>
+        obtain ⟨o, _, a, _, hx, _⟩ := (hE.hasAlias u v).mp ⟨he, by rw [hety, hty]⟩
+        rw [hx] at hucol; cases hucol
+    obtain ⟨hvT, hud⟩ := hK u v hk
+    have hTt : Tt = T := by rw [hv] at hvT; exact Option.some.inj hvT
+    constructor
+    · simp only [stmtRead, List.mem_filter]
+      exact ⟨mem_tagged_of_tag _ _ _ (hF.rd d (hud d hu)), by simpa [Node.isDataset] using hdd⟩
+    · simp only [stmtWrite, List.mem_filter]
+      rw [hTt]
+      exact ⟨mem_tagged_of_tag _ _ _ hF.wr, by simpa [Node.isDataset] using hT⟩
+  · intro hne
+    exfalso
+    apply hne
+    unfold stmtDrop
+    exact tagged_nil_of _ _ hF.nodrop
+
+/-- query level, column list -/
+theorem exWriteQueryCols_holderOK (env : Env) (isInsert : Bool) (tgt : List String) (cs : List String) (d : Bool)
+    (its : List Item) (frm : List FromExpr) (wh : Option Expr) (grp : List Expr) (hav : Option Expr)
+    (hp : env.prov.truthy = false) (hfrag : fragSelectCols env tgt cs (.select d its frm wh grp hav) = true)
+    (hsc : itemsScoped (fromTabs env frm) its = true) :
+    ∃ g, exWriteQuery env isInsert tgt (some cs) (.select d its frm wh grp hav) = .ok g ∧ HolderOK g := by
+  obtain ⟨g, hg, hE, hF⟩ := exWriteQueryCols_exact' env isInsert tgt cs d its frm wh grp hav hp hfrag
+  refine ⟨g, hg, holderOK_of_exact g _ _ _ _ (mkTable_isTable env tgt none ▸ rfl) hE hF ?_ ?_⟩
+  · intro p hp'
+    unfold listedOwners at hp'
+    obtain ⟨c, _, rfl⟩ := List.mem_map.mp hp'
+    rfl
+  · intro u v huv
+    obtain ⟨e, a, k, c, hic, r, hr, hu, hv⟩ := (mem_specPairsPos env tgt cs its frm u v).mp huv
+    refine ⟨by rw [hv]; rfl, fun d' hd' => ?_⟩
+    have hit : Item.mk e a k ∈ its := (List.of_mem_zip hic).1
+    have h1 := List.all_eq_true.mp hsc _ hit
+    simp only [itemScoped, List.all_eq_true] at h1
+    exact srcKeys_owner env.importDefault (fromTabs env frm) r (h1 r hr) u hu d' hd'
+
+/-- **statement level, column list**: `INSERT INTO T (c1, …, cn) <select>` / `CREATE VIEW T (c1, …, cn) AS <select>` over one
+    SELECT block of base tables, qualifiers in scope: the holder projects -/
+theorem analyze_holderOK_cols (env : Env) (silent : Bool) (s : Stmt) (hp : env.prov.truthy = false)
+    (hs : fragStmtCols env s = true) (hsc : stmtScoped env s = true) :
+    ∃ g, analyze env silent s = .ok g ∧ HolderOK g := by
+  cases s with
+  | insert kd tk tgt cols q br =>
+    cases cols with
+    | none => simp [fragStmtCols] at hs
+    | some cs =>
+      cases q with
+      | setop _ _ => simp [fragStmtCols, fragSelectCols] at hs
+      | withq _ _ => simp [fragStmtCols, fragSelectCols] at hs
+      | select d its frm wh grp hav =>
+        have := exWriteQueryCols_holderOK env true tgt cs d its frm wh grp hav hp (by simpa [fragStmtCols] using hs)
+          (by simpa [stmtScoped, stmtFrom, stmtItems] using hsc)
+        unfold analyze
+        have hd : dispatch (stmtType (.insert kd tk tgt (some cs) (.select d its frm wh grp hav) br)) =
+            some "CreateInsertExtractor" := disp_insert
+        rw [hd]
+        exact this
+  | createView tgt orr cols q =>
+    cases cols with
+    | none => simp [fragStmtCols] at hs
+    | some cs =>
+      cases q with
+      | setop _ _ => simp [fragStmtCols, fragSelectCols] at hs
+      | withq _ _ => simp [fragStmtCols, fragSelectCols] at hs
+      | select d its frm wh grp hav =>
+        have := exWriteQueryCols_holderOK env false tgt cs d its frm wh grp hav hp (by simpa [fragStmtCols] using hs)
+          (by simpa [stmtScoped, stmtFrom, stmtItems] using hsc)
+        unfold analyze
+        have hd : dispatch (stmtType (.createView tgt orr (some cs) (.select d its frm wh grp hav))) =
+            some "CreateInsertExtractor" := disp_create_view
+        rw [hd]
+        exact this
+  | ctas _ _ _ _ _ => simp [fragStmtCols] at hs
+  | query _ _ => simp [fragStmtCols] at hs
+  | insertValues _ _ _ => simp [fragStmtCols] at hs
+  | createTable _ _ _ => simp [fragStmtCols] at hs
+  | createTableLike _ _ => simp [fragStmtCols] at hs
+  | update _ _ _ _ _ => simp [fragStmtCols] at hs
+  | merge _ _ _ _ _ _ => simp [fragStmtCols] at hs
+  | copy _ _ => simp [fragStmtCols] at hs
+  | drop _ _ _ => simp [fragStmtCols] at hs
+  | alterRename _ _ => simp [fragStmtCols] at hs
+  | renameTable _ => simp [fragStmtCols] at hs
+  | noop _ _ => simp [fragStmtCols] at hs
+  | unsupported _ => simp [fragStmtCols] at hs
+
+/-! ### set operations -/
+
+def partsScoped (env : Env) (parts : List (List Item × List FromExpr)) : Bool :=
+  parts.all (fun b => itemsScoped (fromTabs env b.2) b.1)
+
+def stmtScopedSetop (env : Env) (s : Stmt) : Bool := partsScoped env (stmtParts s)
+
+/-- query level, set operation of flat branches -/
+theorem exWriteQueryUnion_holderOK (env : Env) (isInsert : Bool) (tgt : List String) (first : Branch) (rest : List OpBranch)
+    (hp : env.prov.truthy = false) (hfrag : fragSetop env tgt (.setop first rest) = true)
+    (hsc : partsScoped env (setopParts first rest) = true) :
+    ∃ g, exWriteQuery env isInsert tgt none (.setop first rest) = .ok g ∧ HolderOK g := by
+  obtain ⟨g, hg, hE, hF⟩ := exWriteQueryUnion_exact' env isInsert tgt first rest hp hfrag
+  refine ⟨g, hg, holderOK_of_exact g _ _ _ _ (mkTable_isTable env tgt none ▸ rfl) hE hF (by intro p hp'; cases hp') ?_⟩
+  have hscb : ∀ b ∈ setopParts first rest, itemsScoped (fromTabs env b.2) b.1 = true :=
+    fun b hb => List.all_eq_true.mp hsc b hb
+  have hsub : ∀ b ∈ setopParts first rest, ∀ d ∈ (fromTabs env b.2).map (·.d),
+      d ∈ ((setopParts first rest).flatMap (fun b => fromTabs env b.2)).map (·.d) := by
+    intro b hb d hd
+    obtain ⟨o, ho, rfl⟩ := List.mem_map.mp hd
+    exact List.mem_map.mpr ⟨o, List.mem_flatMap.mpr ⟨b, hb, ho⟩, rfl⟩
+  intro u v huv
+  generalize hpd : setopParts first rest = parts at *
+  cases parts with
+  | nil => simp [specPairsUnion] at huv
+  | cons b1 restp =>
+    simp only [specPairsUnion, List.mem_append, List.mem_flatMap] at huv
+    rcases huv with h1 | ⟨b, hbm, h1⟩
+    · obtain ⟨e, a, k, hit, r, hr, hu, hv⟩ := (mem_specPairs env tgt b1.1 b1.2 u v).mp h1
+      refine ⟨by rw [hv]; exact tgtCol_parent env tgt _, fun d' hd' => ?_⟩
+      have h2 := List.all_eq_true.mp (hscb b1 (by simp)) _ hit
+      simp only [itemScoped, List.all_eq_true] at h2
+      exact hsub b1 (by simp) d' (srcKeys_owner env.importDefault (fromTabs env b1.2) r (h2 r hr) u hu d' hd')
+    · obtain ⟨e, a, k, it1, hii, r, hr, hu, hv⟩ := (mem_unionBranchPairs env tgt b1.1 b u v).mp h1
+      refine ⟨by rw [hv]; exact tgtCol_parent env tgt _, fun d' hd' => ?_⟩
+      have hit : Item.mk e a k ∈ b.1 := (List.of_mem_zip hii).1
+      have h2 := List.all_eq_true.mp (hscb b (by simp [hbm])) _ hit
+      simp only [itemScoped, List.all_eq_true] at h2
+      exact hsub b (by simp [hbm]) d' (srcKeys_owner env.importDefault (fromTabs env b.2) r (h2 r hr) u hu d' hd')
+
+/-- **statement level, set operation**: INSERT / CTAS / CREATE VIEW over a set operation of any number of flat branches, every
+    qualifier in scope of its own branch: the holder projects -/
+theorem analyze_holderOK_setop (env : Env) (silent : Bool) (s : Stmt) (hp : env.prov.truthy = false)
+    (hs : fragStmtSetop env s = true) (hsc : stmtScopedSetop env s = true) :
+    ∃ g, analyze env silent s = .ok g ∧ HolderOK g := by
+  cases s with
+  | insert kd tk tgt cols q br =>
+    cases cols with
+    | some _ => simp [fragStmtSetop] at hs
+    | none =>
+      cases q with
+      | select _ _ _ _ _ _ => simp [fragStmtSetop, fragSetop] at hs
+      | withq _ _ => simp [fragStmtSetop, fragSetop] at hs
+      | setop first rest =>
+        have := exWriteQueryUnion_holderOK env true tgt first rest hp (by simpa [fragStmtSetop] using hs)
+          (by simpa [stmtScopedSetop, stmtParts] using hsc)
+        unfold analyze
+        have hd : dispatch (stmtType (.insert kd tk tgt none (.setop first rest) br)) = some "CreateInsertExtractor" :=
+          disp_insert
+        rw [hd]
+        exact this
+  | ctas tgt orr ine q br =>
+    cases q with
+    | select _ _ _ _ _ _ => simp [fragStmtSetop, fragSetop] at hs
+    | withq _ _ => simp [fragStmtSetop, fragSetop] at hs
+    | setop first rest =>
+      have := exWriteQueryUnion_holderOK env false tgt first rest hp (by simpa [fragStmtSetop] using hs)
+        (by simpa [stmtScopedSetop, stmtParts] using hsc)
+      unfold analyze
+      have hd : dispatch (stmtType (.ctas tgt orr ine (.setop first rest) br)) = some "CreateInsertExtractor" :=
+        disp_create_table
+      rw [hd]
+      exact this
+  | createView tgt orr cols q =>
+    cases cols with
+    | some _ => simp [fragStmtSetop] at hs
+    | none =>
+      cases q with
+      | select _ _ _ _ _ _ => simp [fragStmtSetop, fragSetop] at hs
+      | withq _ _ => simp [fragStmtSetop, fragSetop] at hs
+      | setop first rest =>
+        have := exWriteQueryUnion_holderOK env false tgt first rest hp (by simpa [fragStmtSetop] using hs)
+          (by simpa [stmtScopedSetop, stmtParts] using hsc)
+        unfold analyze
+        have hd : dispatch (stmtType (.createView tgt orr none (.setop first rest))) = some "CreateInsertExtractor" :=
+          disp_create_view
+        rw [hd]
+        exact this
+  | query _ _ => simp [fragStmtSetop] at hs
+  | insertValues _ _ _ => simp [fragStmtSetop] at hs
+  | createTable _ _ _ => simp [fragStmtSetop] at hs
+  | createTableLike _ _ => simp [fragStmtSetop] at hs
+  | update _ _ _ _ _ => simp [fragStmtSetop] at hs
+  | merge _ _ _ _ _ _ => simp [fragStmtSetop] at hs
+  | copy _ _ => simp [fragStmtSetop] at hs
+  | drop _ _ _ => simp [fragStmtSetop] at hs
+  | alterRename _ _ => simp [fragStmtSetop] at hs
+  | renameTable _ => simp [fragStmtSetop] at hs
+  | noop _ _ => simp [fragStmtSetop] at hs
+  | unsupported _ => simp [fragStmtSetop] at hs
+
 /-! ### the fragment does not look at the provider -/
 
 theorem elemTabs_prov (env : Env) (pv : ProvView) (e : FromElem) : elemTabs { env with prov := pv } e = elemTabs env e := by
@@ -264,6 +486,35 @@ theorem fragStmt_prov (env : Env) (pv : ProvView) (s : Stmt) : fragStmt { env wi
   cases s <;> first | rfl | skip
   all_goals (rename_i cols _ _; cases cols <;> simp only [fragStmt, hq])
   all_goals simp only [fragStmt, hq]
+
+theorem fragStmtCols_prov (env : Env) (pv : ProvView) (s : Stmt) :
+    fragStmtCols { env with prov := pv } s = fragStmtCols env s := by
+  have hq : ∀ tgt cs q, fragSelectCols { env with prov := pv } tgt cs q = fragSelectCols env tgt cs q := by
+    intro tgt cs q
+    cases q with
+    | select d its frm wh grp hav => simp only [fragSelectCols, fromTabs_prov]; rfl
+    | setop _ _ => rfl
+    | withq _ _ => rfl
+  cases s <;> first | rfl | skip
+  all_goals (rename_i cols _ _; cases cols <;> simp only [fragStmtCols, hq])
+  all_goals simp only [fragStmtCols, hq]
+
+theorem fragStmtSetop_prov (env : Env) (pv : ProvView) (s : Stmt) :
+    fragStmtSetop { env with prov := pv } s = fragStmtSetop env s := by
+  have hq : ∀ tgt q, fragSetop { env with prov := pv } tgt q = fragSetop env tgt q := by
+    intro tgt q
+    cases q with
+    | select _ _ _ _ _ _ => rfl
+    | setop first rest => simp only [fragSetop, fromTabs_prov]; rfl
+    | withq _ _ => rfl
+  cases s <;> first | rfl | skip
+  all_goals (rename_i cols _ _; cases cols <;> simp only [fragStmtSetop, hq])
+  all_goals simp only [fragStmtSetop, hq]
+
+theorem stmtScopedSetop_prov (env : Env) (pv : ProvView) (s : Stmt) :
+    stmtScopedSetop { env with prov := pv } s = stmtScopedSetop env s := by
+  unfold stmtScopedSetop partsScoped
+  simp only [fromTabs_prov]
 
 theorem stmtScoped_prov (env : Env) (pv : ProvView) (s : Stmt) : stmtScoped { env with prov := pv } s = stmtScoped env s := by
   unfold stmtScoped
